@@ -1,7 +1,7 @@
 (* Glue between the sx line format and the C11 chain model (unverified, trusted, small).
    Data are symbolic terms (free algebra): the harness maps real bytes to terms by decrypting
    and decoding what was written.                                                         *)
-From YV Require Import Common.Tac Common.Sx C12.C12Chain C11.C11Model.
+From YV Require Import Common.Tac Common.Sx C12.C12Chain C11.C11Model C11.C11HsModel.
 
 Inductive term := TPlain (id : nat) | TEncd (t : term) | TCt (n : nat) (t : term) | THdr (t : term).
 
@@ -82,3 +82,77 @@ Definition run_c11 (arg : sx) : sx :=
   SL [SL evs; SL (map sx_term (wire (sh c2))); sx_nat (ctr (sh c2)); SL (map sx_term (sent (sh c2)));
       SL (map (fun th => sx_bool (match stack th, ops th with [], [] => true | _, _ => false end)) (thr c2));
       sx_nat (length (queue (sh c2)))].
+
+
+(* ---------------- handshake side (C11HsModel): senders racing the handshake worker ---------------- *)
+Definition body_ht := bodyh term TEncd TCt THdr upper_id.
+Definition cfg_h := config (msg term) (@hstate term).
+Definition exec_ht (c : cfg_h) (t : nat) := hexec_l term TEncd TCt THdr upper_id c t.
+
+(* visible events: 1 acq x | 2 rel x | 3 put | 4 get | 5 write | 6 flip | 7 nsend (0 ok, 1 raise) | 0 stuck *)
+Definition visible_h (l : label) : option (nat * nat) :=
+  match l with
+  | LAcq x => if has_lockh x then Some (1, x) else None
+  | LRet x => if has_lockh (S x) then Some (2, S x) else None
+  | LUnwind x true => Some (2, x)
+  | LRaised x true => Some (2, x)
+  | LCall _ 4 => Some (7, 0)
+  | LFailCall _ 4 => Some (7, 1)
+  | LCall _ 3 => Some (3, 0)
+  | LStart 3 => Some (3, 0)
+  | LStart 4 => Some (6, 0)
+  | LCall _ 2 => Some (4, 0)
+  | LCall _ 0 => Some (5, 0)
+  | _ => None
+  end.
+
+Fixpoint advance_h (fuel : nat) (t : nat) (c : cfg_h) : cfg_h * (nat * nat) :=
+  match fuel with
+  | O => (c, (0, 1))
+  | S fuel' =>
+    match exec_ht c t with
+    | None => (c, (0, 0))
+    | Some (c', l) =>
+      match visible_h l with
+      | Some v => (c', v)
+      | None => advance_h fuel' t c'
+      end
+    end
+  end.
+
+Fixpoint settle_h (fuel : nat) (t : nat) (c : cfg_h) : cfg_h :=
+  match fuel with
+  | O => c
+  | S fuel' =>
+    match exec_ht c t with
+    | Some (c', l) => match visible_h l with None => settle_h fuel' t c' | Some _ => c end
+    | None => c
+    end
+  end.
+
+Fixpoint replay_h (sched : list nat) (c : cfg_h) (acc : list sx) : cfg_h * list sx :=
+  match sched with
+  | [] => (c, rev acc)
+  | t :: r =>
+    let '(c', (k, x)) := advance_h 64 t c in
+    replay_h r c' (SL [sx_nat k; sx_nat x] :: acc)
+  end.
+
+Definition msg_of (e : sx) : nat * msg term :=
+  (nat_of (sx_nth e 0),
+   match nat_of (sx_nth e 1) with O => Dat (TPlain (nat_of (sx_nth e 2))) | _ => Flip end).
+
+(* arg: (((N entry N kind N id) ...) ...)  (N tid ...)      kind 0 = datum, 1 = flip; thread 0 = handshake worker
+   ->   ((N kind N x) ...)  (term ...)wire  N ctr  (term ...)sent  (N finished ...) N queue_len
+        ((N result ...) ...)  N transport *)
+Definition run_c11h (arg : sx) : sx :=
+  let opss := map (fun o => map msg_of (sx_get_l o)) (sx_get_l (sx_nth arg 0)) in
+  let sched := map nat_of (sx_get_l (sx_nth arg 1)) in
+  let c0 := init (msg term) (@hstate term) (s0h term) opss in
+  let '(c1, evs) := replay_h sched c0 [] in
+  let c2 := fold_left (fun c t => settle_h 16 t c) (seq_from 0 (length opss)) c1 in
+  SL [SL evs; SL (map sx_term (hwire (sh c2))); sx_nat (hctr (sh c2)); SL (map sx_term (hsent (sh c2)));
+      SL (map (fun th => sx_bool (match stack th, ops th with [], [] => true | _, _ => false end)) (thr c2));
+      sx_nat (length (hq (sh c2)));
+      SL (map (fun th => SL (map sx_bool (results th))) (thr c2));
+      sx_bool (hst (sh c2))].
